@@ -395,6 +395,17 @@ static void plan_roundtrip(const char *prop, int with_rs, int with_xor, int with
             }
             explore_stripe(&pl, sh[i], ct, len, pat, NULL, pm, tmax);
         }
+        /* the same stripe while two instances of a different shape of the same back end are alive (created before / after it) */
+        if (full) {
+            struct shape comp = sh[i];
+            if (is_xor(sh[i].be)) { struct shape xs[64]; int nx = shapes_xor(xs); for (int q = 0; q < nx; q++) if (xs[q].k == sh[i].k && xs[q].m == sh[i].m && xs[q].hd == sh[i].hd) comp = xs[(q + 7) % nx]; }
+            else if (n < 32) comp.k = sh[i].k + 1; else { comp.k = sh[i].m; comp.m = comp.hd = sh[i].k; if (comp.k == sh[i].k) { comp.k = 2; comp.m = comp.hd = 3; } }
+            stripe_companion = comp;
+            char tag[48]; snprintf(tag, sizeof tag, "%s/with-k%dm%dhd%d", prop, comp.k, comp.m, comp.hd);
+            struct plan p3 = pl; p3.prop = tag;
+            explore_stripe(&p3, sh[i], CHKSUM_CRC32, 2 * a + 3, PAT_RAMP, NULL, 1, -1);
+            memset(&stripe_companion, 0, sizeof stripe_companion);
+        }
         /* caller-supplied word sizes the backend ignores: same stripe, same results */
         if (full) { int wv[4]; int nw = w_variants(sh[i].be, wv);
             for (int q = 0; q < nw; q++) { struct shape sw = sh[i]; sw.wv = wv[q]; explore_stripe(&pl, sw, CHKSUM_CRC32, q & 1 ? 1 : 2 * a + 3, PAT_RAMP, NULL, 1, -1); } }
@@ -740,6 +751,16 @@ static void plan_c05(void)
     }
     for (int i = 0; i < ns; i++) { int wv[4]; int nw = w_variants(sh[i].be, wv);
         for (int q = 0; q < nw; q++) { struct shape sw = sh[i]; sw.wv = wv[q]; encode_vs_reference("C05", sw, CHKSUM_NONE, (uint64_t)sh[i].k * 12 - 1, PAT_RAMP, NULL, 0, 1); } }
+    /* every table once more while two instances of ANOTHER table are alive (one created before it, one after): the equations an
+     * instance uses must be its own */
+    for (int i = 0; i < ns; i++) for (int step = 1; step <= (thorough ? 37 : 3); step += (thorough ? 1 : 1)) {
+        stripe_companion = sh[(i + step * (thorough ? 1 : 11)) % ns];
+        char tag[40]; snprintf(tag, sizeof tag, "C05/with-k%dm%dhd%d", stripe_companion.k, stripe_companion.m, stripe_companion.hd);
+        struct plan p3 = pl; p3.prop = tag;
+        explore_stripe(&p3, sh[i], CHKSUM_CRC32, (uint64_t)sh[i].k * 20 - 2, PAT_RAMP, NULL, 0, -1);
+        encode_vs_reference(tag, sh[i], CHKSUM_NONE, (uint64_t)sh[i].k * 20 - 2, PAT_RAMP, NULL, 1, 1);
+    }
+    memset(&stripe_companion, 0, sizeof stripe_companion);
 }
 
 /* ------------------------------------------------------------------ plan C08 */
